@@ -11,7 +11,9 @@ P3  == <<LAU, LAU, LAU>>
 P3t == <<LAU, LAU, TAU>>
 \* 3 threads, two sections, try_lock mixed in
 P3b == <<LAU \o LAU, LAU, TAU \o LAU>>
+P3c == <<LAU \o LAU, LAU \o TAU, TAU \o LAU>>
 \* 4 threads
 P4  == <<LAU, LAU, LAU, LAU>>
+P4b == <<LAU \o LAU, LAU, TAU \o LAU, LAU>>
 P4t == <<LAU, LAU, LAU, TAU>>
 =============================================================================
